@@ -74,3 +74,29 @@ class DocProp(Prop):
     def feats_hist(self, col: Collector, feats) -> None:
         for f in feats:
             col.hist("features", f)
+
+
+_PFX = r"(?:[ >]|[-*+] |\d+[.)] )*"
+
+
+def ellipsis_mechanism(o1: str, o2: str) -> str | None:
+    """Which listed ellipsis mechanism (if any) can account for the '...' runs the next pass converted.
+
+    - 'ellipsis-at-line-start': the previous pass left the run FIRST on a line (after container prefixes / markers);
+    - 'ellipsis-before-escaped-line-start': the previous pass left the run LAST on a line and escaped the first
+      character of the next line (the backslash literal ends the text node, so the run is at the end of its node).
+    The number of new ellipsis characters must not exceed the number of such runs in the previous output; anything
+    else (e.g. a run at a line end followed by '(' on the next line) is not explained and must be reported.
+    """
+    lead = len(re.findall(r"(?m)^" + _PFX + r"\.\.\.", o1))
+    trail = len(re.findall(r"(?m)\.\.\.[ \t]*\n" + _PFX + r"\\", o1))
+    new = o2.count("…") - o1.count("…")
+    if new <= lead:
+        return "ellipsis-at-line-start"
+    if new <= lead + trail:
+        return "ellipsis-before-escaped-line-start"
+    return None
+
+
+def ellipsis_conversions_explained_by_line_starts(o1: str, o2: str) -> bool:
+    return ellipsis_mechanism(o1, o2) == "ellipsis-at-line-start"
